@@ -320,6 +320,9 @@ func (r *rig) c03Goal() string {
 				if h, ok := r.expect[name]; ok && final[name] == h {
 					continue // a stray duplicate of a delivered version (C05 / C20)
 				}
+				if r.emptied[name] {
+					continue // the source was emptied in mid-transfer: the partial stays until the cleaner takes it
+				}
 				return fmt.Sprintf("staging still holds %s", e.Path)
 			}
 		}
